@@ -1067,6 +1067,10 @@ struct VSetMachine
          s->memRemax(I(t[1]));
       else if(c == "mempack")
          s->memPack();
+      // copying a set without vectors is not compared: whether its unused slots are copied depends on the state of the
+      // nonzero arena, which the model does not have
+      else if((c == "copy" || c == "assign") && b.num() == 0)
+         ret = "skip";
       else if(c == "copy")
       {
          Set* n = new Set(*s);
